@@ -1,9 +1,12 @@
 /-
   Nq.Spec.SchedHist — predicates for the history-level theorems of C15 (over `Nq.SchedHist.step`):
-  well-formedness of a daemon state, "nothing is lost", the message a pass starts, quiet histories.
+  well-formedness of a daemon state, "nothing is lost", the message a pass starts, quiet histories,
+  and the promptness of the daemon's sleep (`startableDues`, `sleptThrough`, `SnapOf`) over the select
+  preparation `Nq.SelPrep` (read-only import; that model belongs to C16).
   Core Lean only.
 -/
 import Nq.SchedHist
+import Nq.SelPrep
 
 namespace Nq.Spec.SchedHist
 open Nq Nq.Sched Nq.SchedHist
@@ -93,5 +96,46 @@ def runB (s : HSt) (l : List BStep) : HSt := l.foldl (fun s x => run s (x.steps 
 
 /-- every pass of the history is answered with K, Z or D only -/
 def allKZD (l : List BStep) : Prop := ∀ x ∈ l, ∀ c letters, x = .pass c letters → lettersKZD letters
+
+/-! ### promptness of the sleep: "is retried promptly once that time has passed"
+
+The daemon only starts a message when it is awake.  Between two loop iterations it sleeps in `select()` with the
+timeout `SelPrep.timeout` computed from a snapshot of its globals.  The predicates below say which retry times
+the daemon must not sleep through, on such a snapshot (`SelPrep.Snap`). -/
+
+/-- the retry times the daemon could act on the moment they are due ("startable"): the head of the heap of every
+channel that is *not* in the middle of a pass (provided a job slot is free), and the heads of pqfail and pqdone —
+none of them once exit was requested.  The head of the heap of a channel that is mid-pass is not startable: it
+has to wait for the pass to end, whatever its due time.  Deliberately independent of `SelPrep.dueTimes`. -/
+def startableDues (s : Nq.SelPrep.Snap) : List Int :=
+  if s.exitasap then []
+  else (if Nq.SelPrep.jobAvail s then s.chans.filterMap (fun c => if c.passOpen then none else c.pqMin) else [])
+       ++ s.pqfailMin.toList ++ s.pqdoneMin.toList
+
+/-- "slept through a due time" (executable; the oracle of the select-loop scenarios): `select()` was entered
+with the globals `s` and returned when the clock showed `tafter` — the daemon really slept (`tafter > recent`)
+and woke more than `SLEEP_FUZZ` after the due time of a startable entry. -/
+def sleptThrough (s : Nq.SelPrep.Snap) (tafter : Int) : Bool :=
+  (startableDues s).any fun d => decide (s.recent < tafter) && decide (d + Nq.SelPrep.SLEEP_FUZZ < tafter)
+
+/-- the startable due time that was slept through (for the report) -/
+def sleptThroughWhich (s : Nq.SelPrep.Snap) (tafter : Int) : Option Int :=
+  (startableDues s).find? fun d => decide (s.recent < tafter) && decide (d + Nq.SelPrep.SLEEP_FUZZ < tafter)
+
+/-- the snapshot `sn` is one the daemon can be in when its heaps are those of the history state `s`: the clock,
+the two channels in order with the heads of their heaps, the head of pqdone; no exit requested, a job slot free.
+Everything else (pass open or not, slots used, pending writes, pqfail, todo and cleanup timers) is arbitrary. -/
+structure SnapOf (s : HSt) (sn : Nq.SelPrep.Snap) : Prop where
+  recent : sn.recent = s.clock
+  running : sn.exitasap = false
+  job : Nq.SelPrep.jobAvail sn = true
+  chans : ∃ c0 c1 : Nq.SelPrep.Chan, sn.chans = [c0, c1] ∧ c0.pqMin = (s.q .loc).min.map (·.dt) ∧
+    c1.pqMin = (s.q .rem).min.map (·.dt)
+  done : sn.pqdoneMin = s.done.min.map (·.dt)
+
+/-- channel `c` is in the middle of a pass in the snapshot -/
+def midPass (sn : Nq.SelPrep.Snap) : Chan → Bool
+  | .loc => (sn.chans.getD 0 {}).passOpen
+  | .rem => (sn.chans.getD 1 {}).passOpen
 
 end Nq.Spec.SchedHist
